@@ -8,8 +8,8 @@
 //! transaction ids, the reservation index (`utxo_map`), the cached routing work and
 //! the golden-ticket pool, writes Coq case files comparing them with
 //! `Mempool.trace`, and evaluates the property (I1..I5 of DESIGN §8 C14) directly
-//! on the implementation.  The one listed finding: Block::create fails after
-//! draining the pool when it rebroadcasts an output that a pooled transaction spends.
+//! on the implementation.  No listed finding is left at this commit; the histories
+//! of the fixed ones are the scripted cases.
 use std::collections::{BTreeMap, BTreeSet};
 use std::panic::{catch_unwind, AssertUnwindSafe};
 
@@ -31,17 +31,13 @@ const NODE_KEY: u8 = 1;
 const BUILDER_KEY: u8 = 2;
 const GAP: u64 = 120_000;
 
+/// listed findings an oracle failure can fall into: none at this commit (every class of the
+/// originally pinned tree is fixed; see known_findings.txt)
 #[derive(Clone, Copy, PartialEq, Eq, Debug, PartialOrd, Ord)]
-enum Class {
-    /// a successful bundle left a pooled transaction out (it spends an output the block
-    /// rebroadcasts) and kept the reservations of that transaction's other inputs
-    LeftOutStale,
-}
+enum Class {}
 impl Class {
     fn id(&self) -> &'static str {
-        match self {
-            Class::LeftOutStale => "left-out-tx-keeps-reservation",
-        }
+        match *self {}
     }
 }
 
@@ -119,8 +115,6 @@ struct Ctx {
     descs: Vec<String>,
     /// outputs that were an input of some pooled transaction at some time
     touched: BTreeSet<SaitoUTXOSetKey>,
-    /// reservations left behind by a left-out transaction (listed finding), until they go
-    stale_left_out: BTreeSet<SaitoUTXOSetKey>,
     /// signatures of pooled golden-ticket transactions built NOT to solve their target
     bad_gts: BTreeSet<SaitoSignature>,
     // oracle state
@@ -172,7 +166,6 @@ impl Ctx {
             it: Interner::default(),
             given: BTreeMap::new(),
             touched: BTreeSet::new(),
-            stale_left_out: BTreeSet::new(),
             bad_gts: BTreeSet::new(),
             nonce: 0,
             genesis_ledger: vec![],
@@ -319,15 +312,9 @@ impl Ctx {
         // I3: every reservation belongs to a pooled transaction, every input of a pooled
         // transaction is reserved
         let owned = post.all_input_keys();
-        let stale: BTreeSet<SaitoUTXOSetKey> = post.umap.difference(&owned).cloned().collect();
-        self.stale_left_out.retain(|k| stale.contains(k));
-        for k in &stale {
+        for k in post.umap.difference(&owned) {
             let kk = self.it.get(k);
-            let known = self.stale_left_out.contains(k);
-            self.finding(
-                format!("I3: reservation of output {} has no pooled transaction after {:?}", kk, kind),
-                if known { Some(Class::LeftOutStale) } else { None },
-            );
+            self.finding(format!("I3: reservation of output {} has no pooled transaction after {:?}", kk, kind), None);
         }
         for k in owned.difference(&post.umap) {
             let kk = self.it.get(k);
@@ -426,10 +413,9 @@ impl Ctx {
         if must_accept && !accepted {
             let blocking: Vec<SaitoUTXOSetKey> = vin.iter().filter(|k| pre.umap.contains(*k)).cloned().collect();
             let ks: Vec<u64> = blocking.iter().map(|k| self.it.get(k)).collect();
-            let known = !blocking.is_empty() && blocking.iter().all(|k| self.stale_left_out.contains(k));
             self.finding(
                 format!("I3: funds locked: fresh valid transaction {} spending unspent output(s) {:?}, which no pooled transaction spends, is rejected", id, ks),
-                if known { Some(Class::LeftOutStale) } else { None },
+                None,
             );
         }
         if accepted && !valid_full {
@@ -739,8 +725,6 @@ impl Ctx {
                     .filter(|t| t.transaction_type == TransactionType::ATR)
                     .flat_map(|t| t.from.iter().filter(|s| s.amount > 0).map(key_of))
                     .collect();
-                let block_keys: BTreeSet<SaitoUTXOSetKey> =
-                    b.transactions.iter().flat_map(|t| t.from.iter().map(|s| s.utxoset_key)).collect();
                 for (sig, (inputs, _, _)) in pre.txs.iter() {
                     if !bs.contains(sig) {
                         let id = self.it.get(sig);
@@ -748,11 +732,6 @@ impl Ctx {
                         // block rebroadcasts (Block::create leaves it out; it is doomed)
                         if inputs.iter().any(|(k, a)| *a > 0 && rk.contains(k)) {
                             self.stat("bundle:left-out-rebroadcast-spender");
-                            for (k, _) in inputs {
-                                if !block_keys.contains(k) && post.umap.contains(k) {
-                                    self.stale_left_out.insert(*k);
-                                }
-                            }
                         } else {
                             self.finding(format!("I4: pooled transaction {} neither in the bundled block nor left in the pool", id), None);
                         }
